@@ -31,7 +31,7 @@ func c05Dst() *DstCfg {
 		Asset:    "USD",
 		Accts:    ws(0, "x", "y", "a"),
 		VarAccts: ws(0, "$v"),
-		Caps:     cat(ws(0, "2", "0", "5"), ws(1, "-1", H.String())),
+		Caps:     cat(ws(0, "2", "0", "5"), ws(1, "-1", "$cc")), // $cc: a monetary variable holding a cap beyond 2^64
 		Vecs: []PortVec{
 			{[]string{"1/2", "1/2"}, 0},
 			{[]string{"1/3", "remaining"}, 0},
